@@ -39,6 +39,11 @@ extern "C" void h_destroy_populated(void) {
       auto& f = lx.get_function(lx.get_product(wh), *T[2]); reg->declare_fun(*N[2], f);
       impl::Enum* e = lx.make_enum(*reg, ipr::Enum::Kind::Scoped); for (int i = 0; i < 10; ++i) e->add_member(*N[i % 3]);
       lx.get_linkage(u8"Fortran"); lx.get_calling_convention(u8"stdcall"); lx.get_symbol(*N[0], *T[0]);
+      // a word that does not fit in what is left of the 1 MiB string pool and is longer than the pool's header capacity: it gets a block of its own
+      static char8_t big[1100000];
+      const ipr::String& huge = lx.get_string(util::word_view(big, 1048570 + vp_pick(3)));
+      vp_assert(huge.size() >= 1048570 && huge.characters()[huge.size() - 1] == u8'\0', 1);
+      lx.make_literal(*T[0], huge);
       lx.make_general_substitution()->subst(*lx.make_mapping(*reg, Mapping_level{ 1 })->param(*N[0], *T[0]), lx.true_value());
    }
    vp_leakcheck();
